@@ -1,10 +1,12 @@
 (* Dispatcher from property number to the correspondence entry point of its model. *)
 From Coq Require Import List ZArith.
-From GP Require Import Base.Val Base.GoStrings Model.Secure Model.Negotiate Model.Handshake Model.Stderr Model.Env Model.Stdio Model.MuxBroker Model.MuxTimed Model.Params Generated.
+From GP Require Import Base.Val Base.GoStrings Model.Secure Model.Negotiate Model.Handshake Model.Stderr Model.Env Model.Stdio Model.MuxBroker Model.MuxTimed Model.Serve Model.ClientOps Model.Params Generated.
 
 Definition check_prop (p : Z) (inp obs : V) : verdict :=
   match p with
   | 13%Z => check_secure inp obs
+  | 19%Z => check_clientops inp obs
+  | 16%Z => check_serve gen_sv_params inp obs
   | 6%Z => check_muxtimed gen_mux_params inp obs
   | 7%Z => check_grpctimed gen_grpc_params inp obs
   | 8%Z => check_grpctimed gen_grpc_params inp obs
